@@ -286,6 +286,21 @@ func (g *Gen) stdSpecial(st *State, name string, call *ssa.CallCommon, result ss
 		g.bufAppendSeq(st, r, s)
 		g.setResult(result, Val{Kind: "tuple", Tup: []Val{intV(s.Len), {T: "0", Kind: "err"}}})
 		return true
+	case "(*bytes.Buffer).WriteRune", "(*strings.Builder).WriteRune":
+		// UTF-8 encoding of a rune: an ASCII rune is one byte (itself); every other rune becomes 1..4
+		// bytes that are all >= 0x80 (negative or out-of-range runes are written as U+FFFD)
+		r, ok := bufRef(g.val(st, call.Args[0]))
+		if !ok {
+			return false
+		}
+		rv := g.val(st, call.Args[1])
+		n := g.newSym("runelen", "Int")
+		data := Val{T: g.newSym("runebytes", "(Array Int Int)"), Len: n, Off: "0", Kind: "slice"}
+		g.assume(st, fmt.Sprintf("(ite (and (<= 0 %s) (< %s 128)) (and (= %s 1) (= (select %s 0) %s)) (and (<= 1 %s) (<= %s 4) (forall ((k!wr Int)) (=> (and (<= 0 k!wr) (< k!wr %s)) (and (<= 128 (select %s k!wr)) (<= (select %s k!wr) 255))))))", rv.T, rv.T, n, data.T, rv.T, n, n, n, data.T, data.T))
+		g.bufAppendSeq(st, r, data)
+		g.setResult(result, Val{Kind: "tuple", Tup: []Val{intV(n), {T: "0", Kind: "err"}}})
+		g.trustedUsed["WriteRune: an ASCII rune is written as itself, any other rune as 1..4 bytes >= 0x80"] = true
+		return true
 	case "(*bytes.Buffer).Bytes":
 		r, ok := bufRef(g.val(st, call.Args[0]))
 		if !ok {
@@ -634,7 +649,19 @@ func (g *Gen) callCommon(fn *ssa.Function, st *State, call *ssa.CallCommon, resu
 			}
 		}
 		k := g.ord("call." + dispName)
+		skipReq := false
+		if g.c != nil {
+			for _, n := range g.c.NoReq {
+				if n == dispName {
+					skipReq = true
+					g.trustedUsed["preconditions of "+dispName+" are not claimed at its calls in "+g.short+" (norequires: they belong to another property's model)"] = true
+				}
+			}
+		}
 		for i, r := range cc.Requires {
+			if skipReq {
+				continue // neither claimed nor assumed (assuming a false precondition would make the rest vacuous)
+			}
 			g.oblige(st, "pre", fmt.Sprintf("requires[%s](%s)#%d", clauseName(r, i), dispName, k), g.line(pos), g.spec(st, r.Expr, env))
 		}
 	}
